@@ -20,7 +20,13 @@ pub fn from_mont(l: &[u64; 4]) -> BigUint {
     let p = &sm9::params().p;
     static RINV: std::sync::OnceLock<BigUint> = std::sync::OnceLock::new();
     let rinv = RINV.get_or_init(|| r256().modpow(&(p - BigUint::from(2u32)), p));
-    (from_limbs(l) * rinv) % p
+    let raw = from_limbs(l);
+    if &raw >= p {
+        // a stored value outside [0, p) is not a field element of this library (is_zero / == compare limbs): it must
+        // never equal an expected value (all of which are below p), so it is handed on as it is instead of being reduced
+        return raw;
+    }
+    (raw * rinv) % p
 }
 
 // ---- G1
